@@ -17,12 +17,13 @@ MANIFEST = {
     "resumable), or the task has ended, the state is 'idle', and no run is left open; C08_idle_means_closed; "
     "C08_normal_return_partial -- a call that returns normally ended with the task over, state idle, nothing open, "
     "_interrupted unset, and the loop left through a swallowing handler (StopIteration => plan exhausted); "
-    "C08_interrupt_sources -- _interrupted is set only by a non-deferred pause, abort/stop/halt (even refused) and a "
+    "C08_interrupt_sources -- _interrupted is set only by a non-deferred pause, an ACCEPTED abort/stop/halt (a refused one stores nothing since fix 7236275) and a "
     "suspension request in a non-resumable section, and among the command handlers only by `pause`; "
     "C08_interrupted_idle_explained (history invariant through every block, request and the scheduler) -- if a call ends "
     "with _interrupted set and the engine idle, then its own logs show a transition into aborting/stopping/halting, OR the "
-    "transition pausing->idle (= F4), OR a refused request (= finding 'refused stop'); C08_partial = the documented "
-    "statement under the two hypotheses excluding exactly these two open findings. "
+    "transition pausing->idle (= F4), OR a refused request (only a suspension request in a non-resumable section still stores the flag before an "
+    "assignment that can be refused, which happens in aborting/stopping/halting where the first disjunct holds too -- that last step is not proved); "
+    "C08_partial = the documented statement under the two hypotheses excluding these. "
     "C08_full (RunEngineInterrupted with state idle only after an abort/stop/halt/FailedPause) is FALSE on the unchanged "
     "tree: Counterexamples/C08.lean evaluates the F4 scenario (pause request in the exit sleep(0)) on the model.",
     "note": "Trusted: Lean kernel; engine_extract.py; hand-written _run machine tied by correspondence runs under the "
